@@ -113,7 +113,10 @@ func init() {
 		_, _ = other.MarshalText()
 		_, _ = date.DefaultFormatter(nil, other, 0)
 		_ = other.String()
-		e["held"], e["heldf"] = S(held), S(heldF)
+		hs := d.String()
+		_ = other.String()
+		_ = d.Add(0, 0, 1).String()
+		e["held"], e["heldf"], e["helds"] = S(held), S(heldF), S(hs)
 		mt2, _ := d.MarshalText()
 		fe2, _ := date.DefaultFormatter(make([]byte, 0, 4), d, 0) // a non-nil, empty caller buffer
 		e["mt2"], e["fe2"], e["str2"] = S(mt2), S(fe2), S(d.String())
